@@ -40,6 +40,7 @@ struct World {
     maps: Vec<Beatmap>,
     dspecs: Vec<DiffSpec>,
     score: ScoreSpec,
+    seed_heavy: bool,
 }
 
 fn target_for(map: &Beatmap, mode: u8) -> GameMode {
@@ -103,10 +104,21 @@ fn gen_world(t: &mut Tape) -> (World, Vec<Job>) {
     let specs: Vec<MapSpec> = (0..n_maps).map(|_| gen_map(t, &MapProfile::small(ALL_MODES, 30))).collect();
     let texts: Vec<String> = specs.iter().map(MapSpec::render).collect();
     let maps: Vec<Beatmap> = specs.iter().map(MapSpec::decode).collect();
+    // a third of the worlds is "seed-heavy": every job carries a lazer Random mod with its own seed, so
+    // concurrent calculations initialise the conversion PRNGs with different seeds at the same time
+    let seed_heavy = t.chance(1, 3);
     let dspecs: Vec<DiffSpec> = (0..3)
-        .map(|_| {
+        .map(|i| {
             let m = mode_of(t.below(4) as u8);
-            gen_diff(t, &DiffProfile::realistic().passed(12), m)
+            let mut d = gen_diff(t, &DiffProfile::realistic().passed(12), m);
+            if seed_heavy {
+                d.mods = crate::gen::diff::ModsSpec {
+                    bits: d.mods.bits & (crate::gen::diff::HR | crate::gen::diff::DT | crate::gen::diff::HD),
+                    repr: crate::gen::diff::ModRepr::Lazer,
+                    extras: vec![crate::gen::diff::LazerExtra::Random((1000 * (i + 1)) as f64 + t.range(0, 999) as f64)],
+                };
+            }
+            d
         })
         .collect();
     let score = gen_score_spec(t, 20);
@@ -114,14 +126,14 @@ fn gen_world(t: &mut Tape) -> (World, Vec<Job>) {
     let jobs = (0..n_jobs)
         .map(|_| Job {
             map: if t.chance(1, 2) { 0 } else { t.below_usize(n_maps) },
-            kind: t.below(6) as u8,
-            mode: *t.pick(&[1u8, 1, 0, 2, 3]),
+            kind: if seed_heavy { *t.pick(&[2u8, 2, 3, 4, 5]) } else { t.below(6) as u8 },
+            mode: if seed_heavy { *t.pick(&[1u8, 3]) } else { *t.pick(&[1u8, 1, 0, 2, 3]) },
             d: t.below_usize(3),
             yields: t.below(4) as u8,
             spin: if t.chance(1, 4) { t.range(0, 5000) as u16 } else { 0 },
         })
         .collect();
-    (World { specs, texts, maps, dspecs, score }, jobs)
+    (World { specs, texts, maps, dspecs, score, seed_heavy }, jobs)
 }
 
 fn case_pool(t: &mut Tape, info: &mut CaseInfo) -> Result<(), String> {
@@ -174,6 +186,7 @@ fn case_pool(t: &mut Tape, info: &mut CaseInfo) -> Result<(), String> {
     info.label(format!("threads={}", if n_threads <= 4 { "2-4" } else if n_threads <= 8 { "5-8" } else { "9-16" }));
     info.label(if shared_queue { "shared-queue" } else { "static-partition" });
     info.label(if use_arc { "Arc" } else { "scope-ref" });
+    info.label_if(w.seed_heavy, "seed-heavy(lazer Random mods with distinct seeds)");
     info.nontrivial = shares_map && has_taiko;
     info.set_key(&format!("{:?}{jobs:?}{n_threads}{shared_queue}{use_arc}{assignment:?}", w.specs));
     Ok(())
@@ -325,7 +338,7 @@ pub fn property() -> Property {
         subchecks: vec![
             SubCheck {
                 name: "thread-pool-vs-sequential",
-                rule: "job list of 8-64 jobs over 2-4 maps (decode, convert_ref, difficulty, strains, performance, gradual drain; half of the jobs on map 0 so maps are shared) x thread count 2..16 x assignment (generated static partition or shared atomic queue) x sharing mode (&Beatmap through thread::scope or Arc<Beatmap>) x per-job perturbation (0-3 yield_now, optional spin). Oracle: the result vector of the threaded run equals the sequential run of the same job list (canonical lines / digests). Run on the default and the `sync` build (thorough: additionally under ThreadSanitizer). Non-trivial: >=2 threads touch the same map and >=1 taiko calculation job.",
+                rule: "job list of 8-64 jobs over 2-4 maps (decode, convert_ref, difficulty, strains, performance, gradual drain; half of the jobs on map 0 so maps are shared) x thread count 2..16 x assignment (generated static partition or shared atomic queue) x sharing mode (&Beatmap through thread::scope or Arc<Beatmap>) x per-job perturbation (0-3 yield_now, optional spin); a third of the job lists is seed-heavy: taiko/mania calculations under lazer Random mods with distinct seeds per settings object. Oracle: the result vector of the threaded run equals the sequential run of the same job list (canonical lines / digests). Run on the default and the `sync` build (thorough: additionally under ThreadSanitizer). Non-trivial: >=2 threads touch the same map and >=1 taiko calculation job.",
                 quick: 1500,
                 thorough: 25_000,
                 tape_len: 3400,
